@@ -239,7 +239,9 @@ theorem as_str_eq (W P N : Nat) (v : ByteArray) (hv : v.size = N) :
   have h := (PodStr.text_spec v).1
   unfold PodStr.endIndex at h ⊢
   rw [hv] at h ⊢
-  simp [h]
+  first
+  | (simp [h]; done)
+  | (simp [h]; intro hc; omega)  -- the NUL search behind a helper: its bounds check stays, and never fires
 
 /-- `Display::fmt` writes `from_utf8_lossy` of the text before the first NUL (`lossy` stands for the standard
     library's `String::from_utf8_lossy`, whose behaviour is a parameter). It never fails on a value of `N` bytes. -/
@@ -249,7 +251,9 @@ theorem fmt_eq (W P N : Nat) (lossy : ByteArray → ByteArray) (v : ByteArray) (
   have h := (PodStr.text_spec v).1
   unfold PodStr.endIndex at h ⊢
   rw [hv] at h ⊢
-  simp [h]
+  first
+  | (simp [h]; done)
+  | (simp [h]; intro hc; omega)  -- the NUL search behind a helper: its bounds check stays, and never fires
 
 /-- `as_str_unchecked`: the text before the first NUL, whatever it holds. -/
 theorem as_str_unchecked_eq (W P N : Nat) (v : ByteArray) (hv : v.size = N) :
@@ -258,7 +262,9 @@ theorem as_str_unchecked_eq (W P N : Nat) (v : ByteArray) (hv : v.size = N) :
   have h := (PodStr.text_spec v).1
   unfold PodStr.endIndex at h ⊢
   rw [hv] at h ⊢
-  simp [h]
+  first
+  | (simp [h]; done)
+  | (simp [h]; intro hc; omega)  -- the NUL search behind a helper: its bounds check stays, and never fires
 
 theorem default_value_eq (W P N : Nat) : default_value W P N = some (zerosBA N) := rfl
 
